@@ -17,6 +17,7 @@ mod c27;
 mod c28;
 mod c35;
 mod c40;
+mod c40udf;
 
 fn main() {
     let args = parse_args();
